@@ -2,13 +2,13 @@
    traced graph and the output observed on onnxruntime are compared with the models of Aten.v.
    Prints only indices (see `disagreeing`).  No proofs in this file. *)
 From Coq Require Import ZArith List Bool String.
-Require Import OV.Torch.Onnx OV.Torch.Aten.
+Require Import OV.Torch.Onnx OV.Torch.Aten OV.Torch.F32.
 Import ListNotations.
 Local Open Scope Z_scope.
 
 Definition slabs := list (list Z).
 
-Inductive arith := OpFloorDivS (code : Z) | OpFloorDivU | OpRemainder | OpFmod.
+Inductive arith := OpFloorDivS (code : Z) | OpFloorDivU | OpRemainder | OpFmod | OpDivModeInt (floor_mode : bool).
 Inductive redk := RSum | RAmax | RMean.
 
 Inductive call :=
@@ -116,7 +116,8 @@ Definition run_call (fixed : bool) (c : call) : option result :=
                              | OpFloorDivS _ => aten_floor_divide true
                              | OpFloorDivU => aten_floor_divide false
                              | OpRemainder => aten_remainder
-                             | OpFmod => aten_fmod end) a b))
+                             | OpFmod => aten_fmod
+                             | OpDivModeInt fm => aten_div_mode_int fm end) a b))
   | CClamp xs lo hi => Some (RData (map (fun x => aten_clamp x lo hi) xs))
   | CClampT xs lo hi =>
       Some (RData (mapi (fun i x => match lo, hi with
@@ -163,6 +164,7 @@ Definition skel_call (fixed : bool) (c : call) : skel :=
   | CArith OpFloorDivU _ _ => skel_floor_divide false 0
   | CArith OpRemainder _ _ => skel_remainder
   | CArith OpFmod _ _ => skel_fmod
+  | CArith (OpDivModeInt fm) _ _ => skel_div_mode_int fm
   | CClamp _ lo hi => skel_clamp lo hi
   | CClampT _ lo hi => skel_clamp_tensor (match lo with Some _ => true | None => false end) (match hi with Some _ => true | None => false end)
   | CArange a b st => skel_arange a b st
